@@ -16,7 +16,11 @@ def engine_common(ctx):
 
 
 def events_equal(engine_list, native_list):
-    return runner.norm_events(engine_list or []) == [e.strip() for e in (native_list or [])]
+    # DEPTH events (tag 8) carry raw frame counts, which legitimately differ between the engine
+    # (interpreter frames) and a native run (runtime.Callers): only their presence is compared
+    def norm(evs):
+        return ["8 *" if e.startswith("8 ") else e for e in evs]
+    return norm(runner.norm_events(engine_list or [])) == norm([e.strip() for e in (native_list or [])])
 
 
 def process_harness(ctx, res, pkg_rel, max_replay_per_driver=2, order_free=None):
@@ -317,22 +321,47 @@ def plan_C17(ctx):
     with open(os.path.join(ctx.ws, "rt/c17/zz_drivers.go"), "w") as f:
         f.write("\n".join(lines) + "\n")
     os.remove(os.path.join(ctx.ws, "rt/c17/drivers_dev.go"))
+    # compiled part: filter loops and delegation chains with rt.Probe, compiled by the real compiler
+    corp = corpus.Corpus(ctx, "c17")
+    corp.driver_bin = runner.build_driver(ctx)
+    nloop, dmax = ctx.q((6, 5), (9, 8))
+    for p in gen.c17_programs(nloop, dmax):
+        corp.add(p)
+    corp.write(4, 0, -1, 2, batch=4)
+    corp.compile()
+    corp.quarantine_unbuildable(("out",))
+    hargs = ["-harness", "verifws/rt/c17"]
+    for d in corp.batches:
+        if any(w == d for w in corp.where.values()):
+            hargs += ["-harness", "verifws/out/%s" % d]
     args = engine_common(ctx)
     args[args.index("-maxpaths") + 1] = "100000"
-    res = runner.run_engine(ctx, ["-harness", "verifws/rt/c17"] + args)
-    new, known, replayed, mism, details = process_harness(ctx, res, "rt/c17")
+    res = runner.run_engine(ctx, hargs + ["-drivers", "^Drive_|^DriveDepth_"] + args)
+    direct = {"drivers": [d for d in res["drivers"] if "/rt/c17." in d["name"]]}
+    new, known, replayed, mism, details = process_harness(ctx, direct, "rt/c17")
+    for d in res["drivers"]:
+        if "/rt/c17." in d["name"] or d["status"] != "violated":
+            continue
+        pkg_rel = "out/" + d["name"].rsplit(".", 1)[0].split("/")[-1]
+        a, b, c, e, f = process_harness(ctx, {"drivers": [d]}, pkg_rel, max_replay_per_driver=1)
+        new += a; known += b; replayed += c; mism += e; details += f
     extra = {
         "bounds": {"non_yielding_iterations_n": "0..%d (symbolic, each iteration ends Normal or Continue)" % maxn,
                    "loop_forms": ["For(cond,post,body)", "While", "Loop", "For(nil,post,body)", "While nested in While"],
-                   "rounds": "first advance and an advance after a resumption",
+                   "compiled_generators": [n for n, _ in gen.C17_PROGRAMS] + ["delegation chain R(d)"],
+                   "compiled_loop_iterations": nloop, "filter_mask": "symbolic: every subset of rejected iterations (2^%d) per generator" % nloop,
+                   "delegation_depth": "0..%d, depth increments must be constant" % dmax,
+                   "rounds": "every advance of the iterator separately (first advance and advances after resumptions)",
                    "outside": "n beyond the bound: 'independent of n' for larger n rests on every iteration executing the same code, which is not proved here; native stack bytes (the engine counts interpreter frames, the native replay counts runtime.Callers frames)"},
+        "programs_compiled": len(corp.where), "programs_rejected_by_compiler": len(corp.rejected), "programs_output_unbuildable": len(corp.unbuildable),
+        "rejected_by_message": hist(corp.rejected.values()), "unbuildable_by_message": hist(corp.unbuildable.values()),
         "exhaustive": True,
-        "explanation": "depth is sampled in the loop condition / body thunk at every iteration; the harness asserts depth_j == depth_1 for all j >= 2; the solver enumerates n and the per-iteration completion kinds",
+        "explanation": "depth is sampled in the loop condition / body at every iteration; the harness asserts depth_j == depth_1 for all j >= 2 (per advance), and constant depth increments per delegation level; the solver enumerates n, the per-iteration completion kinds and the filter masks",
         "details": details[:20],
     }
     return finish(ctx, res, "model_checking", new, known, replayed, mism, extra,
                   ["verifrt.Depth() = interpreter frame depth (sum over the resumer chain); Go has no tail calls, so frame count is a faithful proxy for stack growth up to a constant factor"],
-                  floors={"paths_completed": ctx.q(100, 1000)}, sv={"harness_pkg": "rt/c17"})
+                  floors={"paths_completed": ctx.q(300, 3000)}, sv={"harness_pkg": "rt/c17"})
 
 
 CLAIMED["C17"] = plan_C17
